@@ -119,9 +119,11 @@ func runC17(c *Ctx) {
 		kind  byte // 'W', 'S', 'T'
 		chunk []byte
 		str   bool // handed over with io.WriteString, as fmt and text/template users do
+		copy  bool // handed over with io.Copy from a reader that returns its last bytes together with io.EOF
 	}
 	var events []event
 	strMix := g.Chance(3)
+	copyMix := g.Chance(4)
 	pos := 0
 	for pos < len(stream) || g.Chance(6) {
 		switch g.Weighted(8, 2, 2) {
@@ -144,6 +146,9 @@ func runC17(c *Ctx) {
 				k = len(stream) - pos
 			}
 			events = append(events, event{kind: 'W', chunk: stream[pos : pos+k], str: strMix && g.Chance(2)})
+			if copyMix && g.Chance(3) {
+				events[len(events)-1].str, events[len(events)-1].copy = false, true
+			}
 			pos += k
 		case 1:
 			events = append(events, event{kind: 'S'})
@@ -259,7 +264,16 @@ func runC17(c *Ctx) {
 				copy(arg, ev.chunk)
 				var nn int
 				var err error
-				if ev.str {
+				if ev.copy {
+					// io.Copy uses whatever the writer offers for readers (os/exec feeds
+					// writers this way); the source hands over 1-7 bytes per Read and
+					// the last ones together with io.EOF, as decompressors and
+					// length-limited bodies do
+					c.R.Probe("chunks handed over with io.Copy from a reader that ends with data and EOF")
+					var n64 int64
+					n64, err = io.Copy(wr, &c17eofReader{data: arg, step: 1 + len(arg)%7})
+					nn = int(n64)
+				} else if ev.str {
 					// io.WriteString uses whatever the writer offers for strings; the
 					// stream is the same stream
 					c.R.Probe("chunks handed over with io.WriteString between Write calls")
@@ -430,3 +444,26 @@ func (c17failCore) Write(zapcore.Entry, []zapcore.Field) error {
 	return errors.New("injected failure of a sibling core")
 }
 func (c17failCore) Sync() error { return nil }
+
+// c17eofReader hands out its data step bytes at a time and returns io.EOF
+// together with the last of them, which the io.Reader contract allows. It has
+// no WriteTo, so io.Copy goes through the destination.
+type c17eofReader struct {
+	data []byte
+	step int
+}
+
+func (r *c17eofReader) Read(p []byte) (int, error) {
+	n := r.step
+	if n > len(p) {
+		n = len(p)
+	}
+	if n >= len(r.data) {
+		n = copy(p, r.data)
+		r.data = nil
+		return n, io.EOF
+	}
+	copy(p, r.data[:n])
+	r.data = r.data[n:]
+	return n, nil
+}
